@@ -353,6 +353,9 @@ def r05c(ctx):
 
 
 def run(ctx):
+    from .c06 import memo_rule
+    memo_rule(ctx, 'R05d', 'MPS._get_single_cost',
+              ctx.repo.cls('MPS').methods['_get_single_cost'], 1, 2)
     r05a(ctx)
     r05b(ctx)
     r05c(ctx)
